@@ -170,4 +170,73 @@ def p_returns_variant(pr, prog, cg, body, R):
     return n > 0, "%s returns only %s (%d paths)" % (pr["fn"].split("::")[-1], pr["variant"], n)
 
 
-PREMISES = {"callers": p_callers, "ctor_only": p_ctor_only, "ctor_consts": p_ctor_consts, "returns_variant": p_returns_variant}
+def p_ret_ordered_positions(pr, prog, cg, body, R):
+    """{"fn"}: every `Some((a, b))` fn returns (possibly inside Ok) has a, b = positions of one `enumerate()` over its
+    first parameter (or the sentinel -1), behind a test that a is not the sentinel and a test that b is not below a,
+    a and b being taken at different steps of the iteration: 0 <= a < b < len(param)."""
+    import inline, iters, fdeval
+    f = prog.one(pr["fn"])
+    if f is None:
+        return False, "function %s not found" % pr["fn"]
+    par = ("param", 1, f.locals[1].get("name") or "")
+    n = 0
+
+    def is_sentinel(t):
+        return isinstance(t, tuple) and t and t[0] == "const" and t[3] == -1
+
+    def pos(t):
+        r = iters.resolve(t)
+        if r is not None and r[0] == "idx":
+            from sym import mentions
+            if mentions(r[1], lambda x: x == par):
+                return r[1]
+        return None
+    for p in Walker(f, max_visits=3, max_paths=100000, inline=inline.helpers(prog)).paths():
+        if p.end != "return":
+            continue
+        r = strip(p.ret)
+        if r[0] == "agg" and r[2] == "Ok":
+            r = strip(dict(r[3]).get("0"))
+        if not (r[0] == "agg" and r[2] == "Some"):
+            continue
+        tup = strip(dict(r[3]).get("0"))
+        comps = [strip(v) for v in tup[1]] if tup[0] == "tuple" else None
+        if comps is None or len(comps) != 2:
+            return False, "%s returns Some(%s), not a pair" % (pr["fn"], str(tup)[:40])
+        n += 1
+        a, b = (fdeval.uncast(x) for x in comps)
+        for x in (a, b):
+            if not (is_sentinel(x) or pos(x) is not None):
+                return False, "%s can return a component that is not a position of its argument" % pr["fn"].split("::")[-1]
+        if a == b:
+            return False, "%s can return the same position twice" % pr["fn"].split("::")[-1]
+        ordered = sentinel_excluded = False
+        for c, v, bb in p.decisions:
+            c = strip(c)
+            if c[0] == "unop" and c[1] == "Not":
+                c, v = strip(c[2]), not v
+            if c[0] != "binop" or not isinstance(v, bool):
+                continue
+            x, y = fdeval.uncast(c[2]), fdeval.uncast(c[3])
+            op = c[1]
+            if (x, y) == (b, a) and ((op == "Lt" and v is False) or (op == "Ge" and v is True)):
+                ordered = True
+            if (x, y) == (a, b) and ((op == "Gt" and v is False) or (op == "Le" and v is True)):
+                ordered = True
+            if (x == a and is_sentinel(y)) or (y == a and is_sentinel(x)):
+                if (op == "Eq" and v is False) or (op == "Ne" and v is True):
+                    sentinel_excluded = True
+            if is_sentinel(a):
+                pass
+        if is_sentinel(a) and not sentinel_excluded:
+            return False, "%s can return the sentinel as the first position" % pr["fn"].split("::")[-1]
+        if not is_sentinel(a) and pos(a) is not None:
+            sentinel_excluded = True
+        if not ordered:
+            return False, "%s can return Some((a, b)) without having tested that b is not below a" % pr["fn"].split("::")[-1]
+        if not sentinel_excluded:
+            return False, "%s can return the sentinel as the first position" % pr["fn"].split("::")[-1]
+    return n > 0, "%s returns Some((a, b)) only with 0 <= a < b < len(argument) (%d paths)" % (pr["fn"].split("::")[-1], n)
+
+
+PREMISES = {"ret_ordered_positions": p_ret_ordered_positions, "callers": p_callers, "ctor_only": p_ctor_only, "ctor_consts": p_ctor_consts, "returns_variant": p_returns_variant}
